@@ -33,11 +33,12 @@ func F2(a int, b bool, u uint) int {
 	return 0
 }
 
-func G2(b bool) bool {
-	if b {
-		return true
+func G2(xs []int) int {
+	n := 0
+	for i, _ := range xs {
+		n += i
 	}
-	return false
+	return n
 }
 
 func H2(x int) int {
